@@ -162,7 +162,12 @@ def _install():
                     gap = obj - objref
                     # lmfit stops at relative parameter / cost changes of about 1e-7: absolute floor 1e-10 * |rhs|^2
                     if gap > 1e-6 * objref + 1e-8 * scale:
-                        mon.fail("not-optimal", "reported tensions (+ best multiplier) minimise the squared residual over "
+                        # lmfit keeps a parameter >= 0 through a sqrt transform whose derivative vanishes AT the bound: once a
+                        # tension (or the multiplier) reaches 0 during the iteration it stays there although the optimum has
+                        # it positive (known finding F-LSQ-BOUND-STICKING)
+                        raw_ = np.asarray(rec["xres"], float)
+                        stuck = bool(np.any((np.abs(raw_) <= 1e-9) & (zref > 1e-6))) if raw_.shape == zref.shape else False
+                        mon.fail("F-LSQ-BOUND-STICKING" if (stuck and rec["path"] == "lsq") else "not-optimal", "reported tensions (+ best multiplier) minimise the squared residual over "
                                  "non-negative candidates", gap=gap, obj=obj, objref=objref, path=rec["path"], method=method)
                 else:
                     tau = 1e-7 if method != "lsq_linear" else 1e-5
@@ -193,7 +198,10 @@ def _install():
                     tol = {None: 1e-6, "lsq": 1e-3, "lsq_linear": 1e-3}.get(method, 1e-6) * cond
                     d = float(np.abs(x - zref[:n]).max())
                     if d > tol and tol < 0.05:
-                        mon.fail("not-the-minimiser", "equal to the unique minimiser within solver tolerance", diff=d,
+                        raw_ = np.asarray(rec["xres"], float)
+                        stuck = method == "lsq" and rec["path"] == "lsq" and raw_.shape == zref.shape and \
+                            bool(np.any((np.abs(raw_) <= 1e-9) & (zref > 1e-6)))
+                        mon.fail("F-LSQ-BOUND-STICKING" if stuck else "not-the-minimiser", "equal to the unique minimiser within solver tolerance", diff=d,
                                  tol=tol, path=rec["path"], method=method)
                     else:
                         c["worst"] = max(c.get("worst", 0), d / tol)
